@@ -88,8 +88,6 @@ def run(ctx):
             hit = any(x["code"] == m["code"] for tool in tools for x in res[(tag, tool)][1])
             printed.setdefault(m["class"].split("_long")[0], []).append(hit)
     vac = sorted(k for k, v in printed.items() if not any(v) and k != "lex_nonascii")
-    if vac:
-        raise InfraError("mutant classes that never provoke their diagnostic family (vacuous): %s" % vac)
     cov["family_printed_by_class"] = {k: "%d/%d" % (sum(v), len(v)) for k, v in sorted(printed.items())}
     # ---- warning options: two-run formula
     wcases = cases[:2] if ctx.quick else cases[:12]
@@ -170,6 +168,10 @@ def run(ctx):
                 "evaluations": len(jobs) + nopt, "distinct_nontrivial": len(ins) + nopt,
                 "rule": "every mutant (with its offending lexeme and expected diagnostic family) x tools; warning-bearing "
                         "schemas x {plain, -w c, -i c} for 5 named classes and the pseudo classes all/none"})
+    cov["vacuous_classes"] = vac
+    if vac and not ctx.violations:
+        # nothing else disagreed, but part of the family was never exercised on this tree: no verdict rather than a pass
+        raise InfraError("mutant classes that never provoke their diagnostic family (vacuous): %s" % vac)
     return {"level": "model_checking", "coverage": cov, "assumptions": [
         "argument extraction uses the message templates of src/express/error.c read from the working tree",
         "line numbers in diagnostics are not judged (not part of the statement)"]}
